@@ -22,7 +22,6 @@ NA = {
     "C10": "needs the collector and every engine Trace impl under the solver; GcBox::new does not compile under Kani 0.68 (DESIGN.md §2.3)",
     "C16": "SimpleJobExecutor, reaction jobs and the budgeted run loop all execute through Context and Gc-allocated promises; not encodable (DESIGN.md §5)",
     "C17": "the module SCC state machine is stored in Gc module records and driven through promises/Context; not encodable (DESIGN.md §5)",
-    "C14": "attempted and withdrawn: IndexedProperties::insert/remove/push_dense (the only Context-free kernel of array storage) keep ThinVec<JsValue> collection, FxHashMap conversion and PropertyDescriptor clone/drop glue in every path; CBMC symbolic execution did not finish within 15 min even for an empty packed-int array with a concrete key (harness kept under harness_unused/); everything else (array exotic object, Array.prototype.*) needs Context and the GC heap (DESIGN.md §9.7)",
     "C18": "attempted and withdrawn: QuoteJSONString (the only Context-free kernel of JSON) grows a Vec<u16> and allocates heap JsStrings with symbolic lengths; CBMC symbolic execution did not finish within 15 min even for 1-code-unit strings (harness kept under harness_unused/), and JSON.parse / the object serialisers need Context and the GC heap (DESIGN.md §9.7)",
     "C19": "not attempted within this technique's reach: every lexer/parser entry point interns through boa_interner (220 s per get_or_intern under CBMC, or an ICE without the thread_cleanup stub) and builds a heap AST; the printer/re-parser needs the same; no kernel of parse totality or print/parse idempotence is separable at useful bounds (DESIGN.md §2.3, §9.7)",
     "C20": "a statement about two whole-engine runs and realm heaps; no kernel of it is separable for a solver (DESIGN.md §5)",
@@ -119,7 +118,7 @@ PROPS["C01"] = {
     "kani": [{"package": "boa_engine", "flags": ENGINE_FLAGS, "tags": ["model", "c01a", "c01c", "c01d", "c01e"]},
              # equality.rs is representation independent source; under the NaN-boxed build its four variant() calls per
              # relation blow CBMC up (DESIGN 9.1), so it is checked in the jsvalue-enum configuration
-             {"package": "boa_engine", "flags": ENGINE_FLAGS + ["--features", "jsvalue-enum"], "tags": ["model", "c01f"]}],
+             {"package": "boa_engine", "flags": ENGINE_FLAGS + ["--features", "jsvalue-enum"], "tags": ["model", "c01f", "c01g", "pubhelp"]}],
     "assumptions": COMMON_ASSUME + [
         "operands are Numbers (Integer32 / Float64); coercion of other types is outside",
         "Float64 results of int-specialised paths are compared with the syntactically identical IEEE expression on the converted operands; integer results against exact i64 arithmetic",
@@ -323,3 +322,30 @@ PROPS["C02"] = {
     },
 }
 
+
+PROPS["C14"] = {
+    "level": "model_checking",
+    "kani": [{"package": "boa_engine", "flags": ENGINE_FLAGS + ["--features", "jsvalue-enum"], "tags": ["c14a", "pubhelp"],
+              "timeout": {"quick": 900, "thorough": 1500}}],
+    "assumptions": COMMON_ASSUME + [
+        "verified in the jsvalue-enum configuration: property_map.rs is representation-independent source, and under the NaN-boxed build every JsValue clone/drop carries heap-pointer arms that make these harnesses intractable (DESIGN.md §9.1, §9.7)",
+        "symbolic element payloads are int32; keys are concrete per harness (append, overwrite first/last, remove last, remove absent): a symbolic key keeps the sparse hash-map arms in the formula",
+    ],
+    "outside_claim": [
+        "operation SEQUENCES (covered only through the one-step abstraction on the packed-int form), packed-double and packed-value forms as START states, sparse storage forms (hash maps), holes",
+        "the int→double transition through insert() (harnesses kept as tier=never: symbolic execution does not finish); the transition through push_dense IS covered",
+        "array exotic [[DefineOwnProperty]] / ArraySetLength, every Array.prototype method, iteration and key order (need Context and the GC heap)",
+    ],
+    "trusted_base": [],
+    "manifest": {
+        "text": "Narrow kernel-level claim. Bounded model checking of one IndexedProperties operation from an arbitrary packed-int array of 0..2 "
+                "elements with ALL int32 contents: insert of a simple data descriptor (append, overwrite first, overwrite last) with ANY int32 "
+                "value, remove (last element, absent key) and push_dense (an int32, then a double: the int→double storage transition): the "
+                "abstract index→value map afterwards (values, presence, descriptor flags, the reported 'was present') is what the generic "
+                "algorithm gives and the storage form is the expected one. Sequences, sparse forms, holes and all Array builtins are NOT decided.",
+        "note": "Verified under --features jsvalue-enum (same property_map.rs source). Trusted: Kani/CBMC. Outside: sparse forms, heap-valued "
+                "elements, insert()-driven transitions, Array exotic object and builtins.",
+        "technique": "bounded model checking of the compiled Rust (Kani/CBMC, SAT): one step from a symbolic packed-int state vs abstract map",
+        "design_ref": "DESIGN.md §4 C14, §9.2",
+    },
+}
